@@ -618,7 +618,81 @@ def _g13(ctx):
     return n
 
 
+_BOUND = re.compile(r"(^|[^a-z])(vco|pfd|vco_in|vco_out|clkin|clko|clkout|clki)\w*_freq_(min|max)\b|\b(pfd|vco)_freq_(min|max)\b")
+
+
+def _g14(ctx):
+    """A declared window is closed: a frequency exactly on the declared minimum / maximum is inside it.  Every test of a computed
+    frequency against a window bound in the search routines accepts with a non-strict comparison and rejects (continue / break /
+    flag = False / raise) with a strict one -- the form all sibling helpers use.  A strict acceptance (or a non-strict rejection,
+    e.g. an early `break` on `>= max`) refuses requests whose only legal settings sit on the edge of the window."""
+    import os
+    n = 0
+
+    def rejecting(body):
+        ok = True
+        for st in body:
+            if isinstance(st, (ast.Continue, ast.Break, ast.Raise)):
+                continue
+            if isinstance(st, ast.Assign) and isinstance(st.value, ast.Constant) and st.value.value is False:
+                continue
+            ok = False
+        return ok and bool(body)
+
+    def pairs(t):
+        """(left, op, right) of every simple comparison in a test, chained comparisons split"""
+        out = []
+        for c in ast.walk(t):
+            if isinstance(c, ast.Compare):
+                l = c.left
+                for op, r in zip(c.ops, c.comparators):
+                    out.append((l, op, r))
+                    l = r
+        return out
+    for fname in sorted(os.listdir(os.path.join(ctx.repo, D))):
+        if not fname.endswith(".py") or fname.startswith("__"):
+            continue
+        m = ctx.mod(D + fname)
+        for cname, cdef in m.classes.items():
+            for fn in cdef.body:
+                if not (isinstance(fn, ast.FunctionDef) and fn.name.startswith("compute_")):
+                    continue
+                for node in ast.walk(fn):
+                    if not isinstance(node, ast.If):
+                        continue
+                    rej = rejecting(node.body)
+                    for l, op, r in pairs(node.test):
+                        lt, rt = norm(l), norm(r)
+                        bl, br = _BOUND.search(lt), _BOUND.search(rt)
+                        if bool(bl) == bool(br) or not isinstance(op, (ast.Lt, ast.LtE, ast.Gt, ast.GtE)):
+                            continue
+                        if not re.search(r"freq", rt if bl else lt):
+                            continue
+                        bound_txt = lt if bl else rt
+                        is_max = "_max" in bound_txt
+                        # orientation: var <op> bound
+                        o = op
+                        if bl:      # bound <op> var  ->  var <flipped op> bound
+                            o = {ast.Lt: ast.Gt, ast.LtE: ast.GtE, ast.Gt: ast.Lt, ast.GtE: ast.LtE}[type(op)]()
+                        strict = isinstance(o, (ast.Lt, ast.Gt))
+                        inward = isinstance(o, (ast.Lt, ast.LtE)) if is_max else isinstance(o, (ast.Gt, ast.GtE))
+                        # inward comparison (var <= max / var >= min) is an acceptance term, outward (var > max / var < min) a rejection term
+                        negated = any(isinstance(u, ast.UnaryOp) and isinstance(u.op, ast.Not) and any(c is l or c is r for c in ast.walk(u))
+                                      for u in ast.walk(node.test))
+                        accept_term = inward != negated if True else inward
+                        ok = (not strict) if inward else strict
+                        n += 1
+                        ctx.ob("G14", D + fname, f"{cname}.{fn.name}", f"window test `{norm(ast.Compare(left=l, ops=[op], comparators=[r]))}` keeps the bound inside", ok,
+                               "" if ok else f"`{lt} {type(op).__name__} {rt}` {'accepts only strictly inside' if inward else 'rejects / stops at'} the declared "
+                                             f"{'maximum' if is_max else 'minimum'}: a setting exactly on the edge of the declared range is refused although "
+                                             f"it is legal (sibling helpers keep the bound inside)", node)
+    return n
+
+
 def run(ctx):
+    ctx.rule("G14", "declared windows are closed intervals: a computed frequency equal to a declared minimum / maximum passes every window "
+                    "test of the search routines (non-strict acceptance, strict rejection)", min_sites=14)
+    _g14(ctx)
     ctx.rule("G13", "one request record per output: in do_finalize the block of an output reads the frequency / margin of that output's "
                     "own record", min_sites=2)
     _g13(ctx)
